@@ -20,7 +20,7 @@ for p in props:
             "engine": "gose",
             "level_claimed": {"category": "model_checking", "text": c['text'], "design_ref": c.get('design_ref', 'DESIGN.md §4 ' + pid)},
             "level_note": c['note'],
-            "technique": c.get('technique', "bounded symbolic execution of the real Go code (go/ssa -> SMT-LIB2 bit-vectors), assertions and branch feasibility decided by z3; counterexamples replayed natively"),
+            "technique": c.get('technique', "bounded symbolic execution of the real Go code (go/ssa -> SMT-LIB2 bit-vectors), every assertion and branch decided by an SMT solver (z3 5.1.0, undecided queries re-asked on cvc5 1.0 and z3 4.8.12) for all inputs within the stated bounds; counterexamples replayed natively against the real build"),
         })
     else:
         na.append({"property_id": pid, "reason": claims['not_applicable'].get(pid, "no solver-based check registered for this property yet (see DESIGN.md)")})
@@ -37,7 +37,7 @@ m = {
     "engines": [{
         "name": "gose", "path": "/verif/gose",
         "serves_properties": [c['property_id'] for c in checks],
-        "kind_free_text": "symbolic interpreter for go/ssa (x/tools v0.29.0) written for this task: scalars are SMT bit-vector terms, heap concrete, stateless DFS over decision prefixes with 16 workers, one z3 -in per worker; every assertion/branch is an SMT query; models replayed natively via go test -overlay",
+        "kind_free_text": "symbolic interpreter for go/ssa (x/tools v0.29.0) written for this task: scalars are SMT bit-vector terms, heap concrete, stateless DFS over decision prefixes with 16 workers, one z3-new -in per worker (cvc5/z3 4.8.12 fall-back); every assertion/branch is an SMT query; models replayed natively via go test -overlay",
     }],
     "checks": checks,
     "not_applicable": na,
